@@ -164,6 +164,14 @@ def _extract_omega_delta_phi(
     return omega_c, delta_c, phi_c
 
 
+def _two_body_matrix(matrix: torch.Tensor) -> torch.Tensor:
+    """
+    pulser-core >= 1.9 packs interaction matrices as (1, N, N), or (2, N, N) in XY
+    mode with the XY term first. Older versions provide the (N, N) matrix directly.
+    """
+    return matrix[0] if matrix.ndim == 3 else matrix
+
+
 class _InteractionMatrixCallable:
     """
     Callable wrapper returning the SLM-masked or full interaction matrix
@@ -264,11 +272,13 @@ class PulserData:
 
         self.full_interaction_matrix = None
         if config.interaction_matrix is not None:
-            assert len(config.interaction_matrix) == self.qubit_count, (
+            self.full_interaction_matrix = _two_body_matrix(
+                config.interaction_matrix.as_tensor()
+            )
+            assert len(self.full_interaction_matrix) == self.qubit_count, (
                 "The number of qubits in the register should be the same as the size of "
                 "the interaction matrix"
             )
-            self.full_interaction_matrix = config.interaction_matrix.as_tensor()
 
         self.interaction_cutoff = config.interaction_cutoff
         self.slm_end_time = (
@@ -280,7 +290,7 @@ class PulserData:
             full_interaction_matrix = (
                 self.full_interaction_matrix
                 if self.full_interaction_matrix is not None
-                else samples.trajectory.interaction_matrix.as_tensor()
+                else _two_body_matrix(samples.trajectory.interaction_matrix.as_tensor())
             )
 
             full_interaction_matrix = full_interaction_matrix.clone()
